@@ -22,65 +22,29 @@ import (
 
 const prop = "C30"
 
-// Classes of GENUINE, already triaged defects of gossamer that fire so often
-// that stopping at them would prevent exploring anything else. For these (and
-// only these) classes the oracle counts the finding (probe "tolerated:<class>"),
-// resynchronises and goes on. How they are still reported:
-//   - the class is raised through k.Violate once per worker process and only in run
-//     indexes below reportBelow, so that every batch reports it once (as a VIOLATION
-//     with a minimised replay, or as KNOWN-FINDING when known_findings.json lists
-//     it, with or without "continue") without drowning in it; the true number of
-//     occurrences is the probe counter;
-//   - VERIF_C30_STRICT=1 and replays of such a finding always stop at it.
-//
-// Remove an entry once the defect is fixed in /repo: the class is then an ordinary
-// violation again.
-var tolerated = map[string]bool{
-	"report-unknown-peer-deadlock": true,
-	"multi-report-not-applied":     true,
-	"over-max-after-unreserve":     true,
-}
+// Known finding of this world: class "over-max-after-unreserve" (removing the
+// reservation of a connected peer makes it occupy a slot beyond the maximum; see
+// checkMax). It is a genuine defect after which model and system still agree, so
+// exploring on is sound. Every occurrence goes through k.Violate: while
+// known_findings.json lists the class with "continue": true the kernel counts it
+// (KnownHits) and returns, the oracle carries the excess and the run goes on; if the
+// entry is missing it is an ordinary violation that stops the run.
+// VERIF_C30_STRICT=1 and the replay of exactly such a finding always stop at it.
 
-// Only run indexes below reportBelow may raise a tolerated class, and every
-// class is raised at most once per process (the orchestrator gives run indexes
-// 0..chunk-1 to one worker process, chunk = 2000 with the default budgets), so
-// a batch reports each known class once instead of drowning in it.
-const reportBelow = 2000
-
-// proc is per-process bookkeeping for that rule. It never influences what a run
-// DOES, only whether a tolerated finding is raised or counted. A run index that
-// is executed again in the same process (tape minimisation) and a replay keep
-// raising the class that was raised the first time.
-var proc struct {
-	started  bool
-	curIx    uint64
-	curClass string
-	reported map[string]bool
-}
-
-// runTarget decides, at the start of a run, how tolerated classes are treated:
-// fresh run (may raise a not yet reported class) or re-execution (raises only target).
-func runTarget(ix uint64) (target string, fresh bool) {
-	if proc.reported == nil {
-		proc.reported = map[string]bool{}
+// replayClass is the class recorded in the replay file being replayed ("" otherwise),
+// so that replaying a known "continue" finding still reproduces it.
+var replayClass = func() string {
+	if os.Getenv("VERIF_MODE") != "replay" {
+		return ""
 	}
-	if os.Getenv("VERIF_MODE") == "replay" {
-		if b, err := os.ReadFile(os.Getenv("VERIF_REPLAY")); err == nil {
-			var rf struct {
-				Class string `json:"class"`
-			}
-			if json.Unmarshal(b, &rf) == nil {
-				return rf.Class, false
-			}
-		}
-		return "", false
+	var rf struct {
+		Class string `json:"class"`
 	}
-	if proc.started && proc.curIx == ix {
-		return proc.curClass, false
+	if b, err := os.ReadFile(os.Getenv("VERIF_REPLAY")); err == nil && json.Unmarshal(b, &rf) == nil {
+		return rf.Class
 	}
-	proc.started, proc.curIx, proc.curClass = true, ix, ""
-	return "", true
-}
+	return ""
+}()
 
 // reportUnknownDeadlocks is decided once per process, at package initialisation
 // and therefore OUTSIDE any synctest bubble: does PeerSet.reportPeer for a peer
@@ -197,9 +161,6 @@ type env struct {
 	prev         snap
 	strict       bool
 	verbose      bool
-	target       string
-	fresh        bool
-	replay       bool
 	lastErr      error
 }
 
@@ -293,38 +254,18 @@ func (e *env) msgLine(msgs []gps.Message) string {
 	return "[" + strings.Join(parts, " ") + "]"
 }
 
-// raise hands a finding to the kernel. k.Violate stops the run unless the finding is
-// a known one marked "continue"; with force the run stops even then (strict mode,
-// replay of exactly this finding).
-func (e *env) raise(oracle, class, msg string, force bool) {
+// report hands a finding to the kernel. k.Violate stops the run unless the finding
+// is a known one marked "continue"; strict mode and the replay of exactly this
+// finding stop even then.
+func (e *env) report(oracle, class, format string, a ...any) {
+	msg := fmt.Sprintf(format, a...)
 	if e.k.Violate(prop, oracle, class, "%s", msg) {
-		if force {
+		if e.strict || class == replayClass {
 			e.k.Viol = &kernel.Violation{Prop: prop, Oracle: oracle, Class: class, Msg: msg}
 			e.k.Stop()
 		}
+		e.k.Probe("continued:" + class)
 	}
-}
-
-// report raises a violation, or - for the narrowly identified tolerated
-// classes - counts it and lets the run continue (see the comment on tolerated).
-func (e *env) report(oracle, class, format string, a ...any) {
-	msg := fmt.Sprintf(format, a...)
-	switch {
-	case e.strict:
-		e.raise(oracle, class, msg, true)
-	case !tolerated[class]:
-		e.raise(oracle, class, msg, false)
-	case !e.fresh:
-		// re-execution of a run index (tape minimisation) or replay: raise what was raised first
-		if class == e.target {
-			e.raise(oracle, class, msg, e.replay)
-		}
-	case e.k.RunIx < reportBelow && !proc.reported[class]:
-		proc.reported[class] = true
-		proc.curClass = class
-		e.raise(oracle, class, msg, false)
-	}
-	e.k.Probe("tolerated:" + class)
 }
 
 // do executes one operation against the real peer set, drains the result
@@ -537,7 +478,7 @@ func (e *env) checkMax(d string, now, before, max uint32, eff effect, msgs []gps
 		return
 	}
 	if now <= before {
-		// excess carried over from a tolerated finding; nothing new was granted
+		// excess carried over from the known finding; nothing new was granted
 		e.k.Probe("over-max-carried")
 		return
 	}
@@ -576,8 +517,6 @@ func runPeerset(k *kernel.K) {
 	e.maxOut = uint32(k.Choose(4, "maxOut"))
 	e.reservedOnly = k.Bool(1, 4, "reserved-only")
 	e.strict = os.Getenv("VERIF_C30_STRICT") == "1"
-	e.target, e.fresh = runTarget(k.RunIx)
-	e.replay = os.Getenv("VERIF_MODE") == "replay"
 	e.verbose = os.Getenv("VERIF_MODE") == "replay" || os.Getenv("VERIF_C30_VERBOSE") == "1"
 	handlerMode := false
 	period := 2 * time.Second
@@ -696,20 +635,28 @@ func runPeerset(k *kernel.K) {
 		if delta >= 1<<30 || delta <= -(1<<30) {
 			k.Fault("saturating-report")
 		}
-		// Bring the decay up to date first (the real reportPeer does the same as its
-		// first step, so this changes nothing) to learn which listed peers the peer
-		// state still knows: PeersState.addReputation self-deadlocks on an unknown
-		// peer (it holds ps.Lock and calls insertPeer, which locks again). A
-		// goroutine parked on a sync.Mutex hangs the bubble for good, so that call
-		// must not be made; the finding is raised from its precondition instead.
+		// Guard against the return of a fixed defect (/repo abc9a1eb9): PeersState.
+		// addReputation used to self-deadlock on an unknown peer (it held ps.Lock and
+		// called insertPeer, which locks again). A goroutine parked on a sync.Mutex
+		// hangs the bubble for good, so if the init-time probe says the deadlock is
+		// back, the call is not made for unknown peers and the violation is raised
+		// from its precondition (after the real updateTime, which reportPeer runs as
+		// its first step anyway, has forgotten whom it forgets). With the defect
+		// absent nothing is filtered and unknown peers are reported for real.
 		detail := fmt.Sprintf("%d %v", delta, list)
 		k.Event("report", "%s", detail)
-		if err := e.ps.VerifUpdateTime(); err != nil {
-			k.Violate(prop, "reputation", "updateTime-error@report", "updateTime failed: %v", err)
+		if reportUnknownDeadlocks {
+			if err := e.ps.VerifUpdateTime(); err != nil {
+				k.Violate(prop, "reputation", "updateTime-error@report", "updateTime failed: %v", err)
+			}
 		}
 		var keep []int
 		for _, i := range list {
-			if _, _, ok := e.ps.VerifNode(0, peerIDs[i]); ok || !reportUnknownDeadlocks {
+			if !reportUnknownDeadlocks {
+				keep = append(keep, i)
+				continue
+			}
+			if _, _, ok := e.ps.VerifNode(0, peerIDs[i]); ok {
 				keep = append(keep, i)
 				continue
 			}
@@ -721,7 +668,7 @@ func runPeerset(k *kernel.K) {
 		// depend on gossamer's map iteration order, so the filtered list is not logged
 		// (it appears in replay mode only).
 		if len(keep) < len(list) && e.verbose {
-			k.Log = append(k.Log, fmt.Sprintf("      (unknown peers left out of the next report: %v -> %v, tolerated class report-unknown-peer-deadlock)", list, keep))
+			k.Log = append(k.Log, fmt.Sprintf("      (unknown peers left out of the next report: %v -> %v, class report-unknown-peer-deadlock)", list, keep))
 		}
 		if len(keep) == 0 {
 			e.do(effect{kind: "report", disc: -1, noEvent: true}, detail, func() {})
